@@ -798,14 +798,18 @@ def arm_only(prog, f, bb, adt_last, allowed):
             continue
         dv = {v["discr"]: v["name"] for v in adt["variants"]}
         listed = set()
+        by_target = {}
         for val, tb in t["targets"]:
             listed.add(val)
-            if dv.get(val) in allowed:
-                cut.add((w, tb))
-        # `otherwise` covers the unlisted variants: allowed only if all of them are allowed
+            by_target.setdefault(tb, []).append(dv.get(val))
+        # `otherwise` covers the unlisted variants
         rest = [n for d, n in dv.items() if d not in listed]
-        if rest and all(n in allowed for n in rest):
-            cut.add((w, t["otherwise"]))
+        if rest:
+            by_target.setdefault(t["otherwise"], []).extend(rest)
+        # an edge counts as an allowed arm only if *every* variant routed over it is allowed (or-patterns share one target block)
+        for tb, names in by_target.items():
+            if names and all(n in allowed for n in names):
+                cut.add((w, tb))
     if not cut:
         return False
     return bb not in reach_without_edges(f, 0, cut)
